@@ -82,12 +82,12 @@ fn main() {
             rep.bound("pending_deviation_bound_total", k);
             rep.bound("items_per_side_1tick", if thorough { 3 } else { 2 });
             rep.bound("items_per_side_2tick", if thorough { "tick1 <= 2, tick2 <= 1" } else { "<= 1 per tick" });
-            rep.bound("items_per_side_3tick", "<= 1 per tick");
+            rep.bound("items_per_side_3tick", if thorough { "<= 1 per tick" } else { "<= 1 per tick; kinds SetxSet and MultisetxMultiset; at least one side 'static" });
             let plan: [(usize, usize, usize); 3] = if thorough { [(1, 3, 3), (2, 2, 2), (3, 1, 2)] } else { [(1, 2, 2), (2, 1, 2), (3, 1, 1)] };
             for (s, (n_ticks, max_len, k)) in sections.iter().zip(plan) {
                 let t = Tier { max_len, k, thorough };
                 rep.bound(&format!("k_{}", s.name), k);
-                let shards = c13::shards(n_ticks, max_len);
+                let shards = c13::shards(n_ticks, max_len, !thorough && n_ticks == 3);
                 let st = run_section("C13", s, &shards, &t, CAP_PER_SHARD);
                 rep.section(s.name, st);
             }
